@@ -380,6 +380,59 @@ theorem compact_closed (w : World κ μ γ) (n : κ) (m : μ) (c : γ) (hfresh :
   rw [h3 n hfresh]
   simp [act, lookup]
 
+/-- commit: if the new manifest only names old files and the new segment, it
+is closed again (commit never unlinks) -/
+theorem commit_closed (w : World κ μ γ) (n : κ) (c : γ) (newM : List (κ × μ))
+    (hsub : ∀ x ∈ names newM, x = n ∨ (x ∈ names w.manifest ∧ (lookup w.dir x).isSome = true)) :
+    let w' := (commitActs newM n c).foldl act w
+    (snapshot w'.dir w'.manifest).isSome = true := by
+  intro w'
+  have hw' : w' = act (act w (.create n c)) (.publish newM) := rfl
+  rw [hw']
+  have hm : (act (act w (.create n c)) (.publish newM)).manifest = newM := rfl
+  have hd : (act (act w (.create n c)) (.publish newM)).dir = (n, c) :: remove w.dir n := rfl
+  rw [hm, hd]
+  clear hw' hm hd w'
+  induction newM with
+  | nil => rfl
+  | cons p rest ih =>
+    obtain ⟨x, m⟩ := p
+    have hrest := ih (fun y hy => hsub y (by simp only [names, List.map_cons, List.mem_cons] at hy ⊢; exact Or.inr hy))
+    simp only [snapshot]
+    have hx := hsub x (by simp [names])
+    have hl : (lookup ((n, c) :: remove w.dir n) x).isSome = true := by
+      simp only [lookup]
+      by_cases hnx : n = x
+      · simp [hnx]
+      · rw [if_neg hnx, lookup_remove_ne _ _ _ hnx]
+        rcases hx with h | h
+        · exact absurd h.symm hnx
+        · exact h.2
+    cases h1 : lookup ((n, c) :: remove w.dir n) x with
+    | none => rw [h1] at hl; cases hl
+    | some v =>
+      cases h2 : snapshot ((n, c) :: remove w.dir n) rest with
+      | none => rw [h2] at hrest; cases hrest
+      | some l => rfl
+
+/-- the candidate repair — opening the segments while still holding the manifest read guard —
+makes copy + opens one atomic block: no environment step falls into the window, so the open
+always succeeds (instance of the partial theorem with an empty window) -/
+theorem reader_open_under_guard (w : World κ μ γ) (snap : List (κ × μ × γ))
+    (hclosed : snapshot w.dir w.manifest = some snap) :
+    ∃ w' r', run (w, none) (.rd :: List.replicate w.manifest.length .rd) = (w', some r') ∧
+      (finish w' r').failed = false ∧ (finish w' r').todo = [] ∧ (finish w' r').opened = snap := by
+  apply reader_open_succeeds_partial w snap _ hclosed
+  have : ∀ (k j : Nat), windowProtected (κ := κ) (μ := μ) (γ := γ) (names w.manifest) k (List.replicate j .rd) = true := by
+    intro k j
+    induction j generalizing k with
+    | zero => cases k <;> rfl
+    | succ j ih =>
+      cases k with
+      | zero => rfl
+      | succ k => simpa [List.replicate_succ, windowProtected] using ih k
+  exact this _ _
+
 /-! ## non-vacuity and the negative witness -/
 
 /-- two segments `0,1`; the reader copies `[0,1]`; a commit adds segment `2`; the reader opens -/
